@@ -143,4 +143,59 @@ def topicsOp (st : TState) (impl : String) : List String → Option (TState × S
     some (st, got, if v then verdict (impl == want) s!"spec wants {want}" else "ok", "-")
   | _ => none
 
+/-- apply one op of a `t.conc` thread (compact form `name:arg:…`) to the model; result string -/
+def concApply (st : TState) (op : String) : Option (TState × String) :=
+  match op.splitOn ":" with
+  | name :: args => (topicsOp st "" (("t." ++ name) :: args)).map fun r => (r.1, r.2.1)
+  | [] => none
+
+def setAt {α} (l : List α) (i : Nat) (v : α) : List α := l.set i v
+
+/-- depth-first search for a serialisation of the threads (consistent with each thread's program
+    order) under which the model returns exactly the observed per-op results and ends in the observed
+    index. `want[i]` = observed results of thread `i`; pruned as soon as a result differs. -/
+def searchSer (wantDump : String) : (fuel : Nat) → TState → List (List String) → List (List String) → Option TState
+  | 0, st, threads, _ =>
+    if threads.all (·.isEmpty) && renderIndex st.idx == wantDump then some st else none
+  | fuel + 1, st, threads, want =>
+    if threads.all (·.isEmpty) then (if renderIndex st.idx == wantDump then some st else none) else
+    (List.range threads.length).findSome? fun i =>
+      match threads[i]?, want[i]? with
+      | some (op :: rest), some (w :: wrest) =>
+        match concApply st op with
+        | some (st', r) =>
+          if r == w then searchSer wantDump fuel st' (setAt threads i rest) (setAt want i wrest) else none
+        | none => none
+      | _, _ => none
+
+/-- run the threads one after the other (the fallback rendering when no serialisation explains the
+    observation) -/
+def runSerial (st : TState) (threads : List (List String)) : TState × List (List String) :=
+  threads.foldl (fun (acc : TState × List (List String)) th =>
+    let r := th.foldl (fun (a : TState × List String) op =>
+      match concApply a.1 op with
+      | some (st', r) => (st', a.2 ++ [r])
+      | none => (a.1, a.2 ++ ["?"])) (acc.1, [])
+    (r.1, acc.2 ++ [r.2])) (st, [])
+
+def renderConc (res : List (List String)) (x : Index) : String :=
+  "|".intercalate (res.map fun r => ",".intercalate r) ++ " D " ++ renderIndex x
+
+/-- `t.conc`: a batch run concurrently on the real index must be explained by some serialisation -/
+def topicsConcOp (st : TState) (impl : String) : List String → Option (TState × String × String × String)
+  | ["t.conc", spec] =>
+    let threads := (spec.splitOn "|").map fun th => th.splitOn ","
+    let (resPart, dumpPart) := match impl.splitOn " D " with
+      | [a, b] => (a, b)
+      | _ => (impl, "")
+    let want := (resPart.splitOn "|").map fun r => r.splitOn ","
+    let total := (threads.map (·.length)).foldl (· + ·) 0
+    match searchSer dumpPart (total + 1) st threads want with
+    | some st' => some (st', impl, "ok", "-")
+    | none =>
+      let (st', res) := runSerial st threads
+      some (st', renderConc res st'.idx,
+        "FAIL[C31|-] no serial order of the batch (consistent with each goroutine's program order) yields the observed return values and final index", "-")
+  | _ => none
+
 end Mochi.Driver
